@@ -149,7 +149,8 @@ theorem forecast_perm (v : Variant) (scale : Option ℝ) (budget tolD tolB : ℝ
   cases h1 : Num.lt id.hi id.lo
   · simp only [Bool.false_eq_true, ↓reduceIte]
     generalize bisLoop (totalAt v scale id.chosen) (anyNegAt v scale id.chosen) budget tolD tolB 5000
-      ⟨id.lo, id.hi, true, false⟩ = st
+      { lo := id.lo, hi := id.hi, go := true, negative := false } = st
+    unfold finish
     cases h2 : st.negative
     · simp only [Bool.false_eq_true, ↓reduceIte]
       refine ⟨fun e he => (by cases he), ?_⟩
